@@ -376,6 +376,16 @@ class Session:
                 cur = [float(t) for t in self.db.data['tag'].to_list()][lo:hi]
                 if tags != cur or (want is not None and tags != want):
                     ctx.fail('I13.extract', f'extract_rows({lo}..{hi - 1}) returned rows {tags}, positions hold {cur}')
+                # the extracted table is a table of its own: transforming it leaves the original intact (checked below
+                # by the cell-by-cell comparison), and vice versa
+                cands = [c for c in self.cols if c not in ('tag', 'grp')]
+                csel = cands[(a[0] + a[1]) % len(cands)]
+                sub.scale_column(csel, 3.0)
+                by_tag = {r['tag']: r for r in self.rows}
+                for i_, t_ in enumerate(tags):
+                    if not ref.close(float(sub.data[csel].iloc[i_]), 3.0 * by_tag[t_][csel], 1e-12, 0.0):
+                        ctx.fail('I13.values', f'scaling column {csel} of the extracted table gives {float(sub.data[csel].iloc[i_])!r} '
+                                               f'for row tag={t_}')
                 ctx.log(kind, lo, hi)
         elif kind == 'FLATTEN':
             if self.panel is None:
